@@ -1,11 +1,436 @@
-/- C13 — executable model (stub; filled in by the property's owner). -/
+/-
+C13 — region measurements and label-map utilities
+(`_labeled.cpp`: `labeled_foldl`, `labeled_sum/max/min`, `relabel`, `is_same_labeling`, `remove_regions`,
+ `borders`, `border`; `labeled.py`: `remove_bordering`, `filter_labeled`, `labeled_size`, `bwperim`, `bbox`;
+ `_bbox.cpp`; `_center_of_mass.cpp`; `_histogram.cpp`).
+Every definition is a transliteration of the loop that exists; the specifications (`…Spec`) restate the
+property's words and are computed independently.
+-/
 import Mahotas.Model.Border
 import Mahotas.Model.DType
+import Mahotas.Model.C03
 namespace Mahotas.C13
 open Mahotas
 
+/-! ### `labeled_foldl` and its instances -/
+
+/-- `labeled_foldl`: `result[l] = f(value, result[l])` for every pixel whose label satisfies
+    `0 ≤ l < maxlabel`, starting from `start` everywhere. Pixels are `(value, label)` in scan order. -/
+def labeledFold {α : Type} (f : α → α → α) (start : α) (maxlabel : Nat) (px : List (α × Int)) : Array α :=
+  px.foldl (fun res x => if 0 ≤ x.2 ∧ x.2 < (maxlabel : Int) then res.modify x.2.toNat (f x.1) else res)
+    (Array.replicate maxlabel start)
+
+/-- the values carrying label `l`, in scan order -/
+def valuesOf {α : Type} (px : List (α × Int)) (l : Int) : List α :=
+  (px.filter fun x => x.2 == l).map (·.1)
+
+/-- `std_like_max(a, b) = (a < b) ? b : a`, `std_like_min(a, b) = !(b < a) ? a : b` -/
+def stdMax {α : Type} [LT α] [DecidableRel (α := α) (· < ·)] (a b : α) : α := if a < b then b else a
+def stdMin {α : Type} [LT α] [DecidableRel (α := α) (· < ·)] (a b : α) : α := if b < a then b else a
+
+/-- integer instances: `std::plus<T>` wraps in the dtype (`-fno-strict-overflow`); bool sums are `or` -/
+def sumInt (dt : DT) (n : Nat) (px : List (Int × Int)) : Array Int :=
+  if dt.isBool then labeledFold (fun a r => if a ≠ 0 ∨ r ≠ 0 then 1 else 0) 0 n px
+  else labeledFold (fun a r => dt.wrap (a + r)) 0 n px
+def maxInt (dt : DT) (n : Nat) (px : List (Int × Int)) : Array Int := labeledFold stdMax dt.lo n px
+def minInt (dt : DT) (n : Nat) (px : List (Int × Int)) : Array Int := labeledFold stdMin dt.hi n px
+
+/-- floating instances; `lowest`/`highest` are `numeric_limits<T>::lowest()/max()` of the C type -/
+def sumFloat (n : Nat) (px : List (Float × Int)) : Array Float := labeledFold (fun a r => a + r) 0.0 n px
+def maxFloat (lowest : Float) (n : Nat) (px : List (Float × Int)) : Array Float := labeledFold stdMax lowest n px
+def minFloat (highest : Float) (n : Nat) (px : List (Float × Int)) : Array Float := labeledFold stdMin highest n px
+
+/-- `numeric_limits<double>::max()` and `numeric_limits<float>::max()` (as a double) -/
+def dblMax : Float := Float.ofBits 0x7FEFFFFFFFFFFFFF
+def fltMax : Float := Float.ofBits 0x47EFFFFFE0000000
+
+/-! ### histogram / sizes -/
+
+/-- `compute_histogram` into a zeroed array of `n` bins -/
+def histogram (n : Nat) (vals : List Int) : Array Nat :=
+  vals.foldl (fun h v => h.modify v.toNat (· + 1)) (Array.replicate n 0)
+
+def maxOf (vals : List Int) : Int := vals.foldl max 0
+
+/-- `fullhistogram` of an unsigned image (bool: `[zeros, ones]`) -/
+def fullHistogram (isBool : Bool) (vals : List Int) : List Nat :=
+  if isBool then
+    let ones := (vals.filter (· ≠ 0)).length
+    [vals.length - ones, ones]
+  else (histogram ((maxOf vals).toNat + 1) vals).toList
+
+def countSpec (vals : List Int) (n : Nat) : List Nat :=
+  (List.range n).map fun (i : Nat) => (vals.filter (· == (i : Int))).length
+
+/-! ### bounding boxes -/
+
+def bboxInit (shape : List Nat) : List Int := shape.flatMap fun (d : Nat) => [(d : Int), 0]
+
+/-- one pixel of the generic loop: `extrema[2j] = min(.., where[j])`, `extrema[2j+1] = max(.., where[j]+1)` -/
+def bboxUpdate : List Int → List Int → List Int
+  | lo :: hi :: rest, p :: ps => min lo p :: max hi (p + 1) :: bboxUpdate rest ps
+  | ext, _ => ext
+
+/-- `py_bbox`'s final test: no pixel seen (`extrema[1] == 0`) ⇒ all zeros -/
+def bboxFinish (ext : List Int) : List Int := if ext.getD 1 0 == 0 then ext.map (fun _ => 0) else ext
+
+/-- generic `bbox<T>` -/
+def bboxGeneric (shape : List Nat) (data : List Int) : List Int :=
+  bboxFinish (((List.range data.length).foldl (fun ext i =>
+    if data.getD i 0 ≠ 0 then bboxUpdate ext (unravelI shape i) else ext) (bboxInit shape)))
+
+/-- the x-loop of `carray2_bbox` for row `y` (skip-ahead to the known right edge) -/
+def bboxRow (N1 : Nat) (row : Nat → Int) (y : Int) : Nat → Nat → (Int × Int × Int × Int) → (Int × Int × Int × Int)
+  | 0, _, e => e
+  | fuel + 1, x, e =>
+    if x ≥ N1 then e else
+    if row x ≠ 0 then
+      let e0 := min e.1 y
+      let e1 := max e.2.1 (y + 1)
+      let e2 := min e.2.2.1 x
+      if ((x : Int) + 1) < e.2.2.2 then
+        bboxRow N1 row y fuel ((e.2.2.2 - (x : Int) - 1).toNat + x + 1) (e0, e1, e2, e.2.2.2)
+      else bboxRow N1 row y fuel (x + 1) (e0, e1, e2, (x : Int) + 1)
+    else bboxRow N1 row y fuel (x + 1) e
+
+/-- `carray2_bbox` (C-contiguous 2-D fast path) -/
+def bboxFast (N0 N1 : Nat) (data : List Int) : List Int :=
+  let e := (List.range N0).foldl (fun e y => bboxRow N1 (fun x => data.getD (y * N1 + x) 0) y (N1 + 1) 0 e)
+    ((N0 : Int), (0 : Int), (N1 : Int), (0 : Int))
+  bboxFinish [e.1, e.2.1, e.2.2.1, e.2.2.2]
+
+/-- specification: per axis the least coordinate and the greatest coordinate + 1 of the non-zero pixels
+    (`none` when there is no such pixel) -/
+def bboxSpec (shape : List Nat) (data : List Int) : Option (List Int) :=
+  let ps := ((List.range data.length).filter fun i => data.getD i 0 ≠ 0).map (unravelI shape)
+  match ps with
+  | [] => none
+  | p0 :: _ =>
+    some ((List.range shape.length).flatMap fun j =>
+      [ps.foldl (fun m p => min m (p.getD j 0)) (p0.getD j 0),
+       ps.foldl (fun m p => max m (p.getD j 0 + 1)) (p0.getD j 0 + 1)])
+
+/-- `bbox_labeled` + the absent-label zeroing of `py_bbox_labeled`, for labels `0..n`: the block
+    `extrema + label*2*nd` of every label starts as `[dim_0, 0, dim_1, 0, …]`, every pixel updates the block
+    of its label, and a block whose `extrema[1]` is still 0 is zeroed. -/
+def bboxLabeled (shape : List Nat) (labels : List Int) (n : Nat) : List Int :=
+  let rows := (List.range labels.length).foldl (fun (rows : Array (List Int)) i =>
+      rows.modify (labels.getD i 0).toNat (fun r => bboxUpdate r (unravelI shape i)))
+    (Array.replicate (n + 1) (bboxInit shape))
+  (List.range (n + 1)).flatMap fun l => bboxFinish (rows.getD l [])
+
+def bboxLabeledSpec (shape : List Nat) (labels : List Int) (n : Nat) : List Int :=
+  (List.range (n + 1)).flatMap fun (l : Nat) =>
+    match bboxSpec shape (labels.map fun v => if v == (l : Int) then 1 else 0) with
+    | some b => b
+    | none => List.replicate (2 * shape.length) 0
+
+/-! ### centre of mass -/
+
+/-- the arithmetic the kernel uses, as data: the model is run at `Float` and proved over any field -/
+structure NumOps (α : Type) where
+  zero : α
+  add : α → α → α
+  mul : α → α → α
+  div : α → α → α
+  ofNat : Nat → α
+
+def floatOps : NumOps Float :=
+  { zero := 0.0, add := (· + ·), mul := (· * ·), div := (· / ·), ofNat := Float.ofNat }
+
+/-- `centers_label[j] += val * pos.index_rev(j)` for `j = 0..nd-1` (`index_rev(j)` = coordinate `nd-1-j`) -/
+def rowAdd {α : Type} (ops : NumOps α) (nd : Nat) (val : α) (pos : List Nat) (row : List α) : List α :=
+  (List.range nd).map fun j =>
+    ops.add (row.getD j ops.zero) (ops.mul val (ops.ofNat (pos.getD (nd - 1 - j) 0)))
+
+/-- one pixel of `center_of_mass<T>`: `totals[label] += val` and the row of the label is advanced -/
+def comStep {α : Type} (ops : NumOps α) (shape : List Nat) (vals : List α) (labels : List Int)
+    (st : Array α × Array (List α)) (i : Nat) : Array α × Array (List α) :=
+  let l := (labels.getD i 0).toNat
+  (st.1.modify l (fun t => ops.add t (vals.getD i ops.zero)),
+   st.2.modify l (rowAdd ops shape.length (vals.getD i ops.zero) (unravel shape i)))
+
+/-- `center_of_mass<T>` + the division and coordinate reversal of `py_center_of_mass`;
+    `labels = []` stands for `labels == NULL`. Result: `(maxlabel+1) × nd`, row-major.
+    (`centers + label*nd` is kept as one row per label.) -/
+def comModelG {α : Type} (ops : NumOps α) (shape : List Nat) (vals : List α) (labels : List Int) : List α :=
+  let nd := shape.length
+  let nl := (maxOf labels).toNat + 1
+  let st := (List.range vals.length).foldl (comStep ops shape vals labels)
+    (Array.replicate nl ops.zero, Array.replicate nl (List.replicate nd ops.zero))
+  (List.range nl).flatMap fun l =>
+    ((List.range nd).map fun j =>
+      ops.div ((st.2.getD l []).getD j ops.zero) (st.1.getD l ops.zero)).reverse
+
+def comModel (shape : List Nat) (vals : List Float) (labels : List Int) : List Float :=
+  comModelG floatOps shape vals labels
+
+/-- specification on exact integers: data `k / scale`; numerator `Σ k·coord_j` and denominator `Σ k`
+    per label (the quotient is compared only when the denominator is non-zero) -/
+def comSpec (shape : List Nat) (ks : List Int) (labels : List Int) : List (Int × Int) :=
+  let nd := shape.length
+  let nl := (maxOf labels).toNat + 1
+  let idx := List.range ks.length
+  (List.range nl).flatMap fun (l : Nat) =>
+    let mine := idx.filter fun i => (labels.getD i 0) == (l : Int)
+    let den := (mine.map fun i => ks.getD i 0).foldl (· + ·) 0
+    (List.range nd).map fun j =>
+      ((mine.map fun i => ks.getD i 0 * ((unravel shape i).getD j 0 : Nat)).foldl (· + ·) 0, den)
+
+/-! ### relabel, is_same_labeling, remove_regions, remove_bordering, filter_labeled -/
+
+/-- `relabel`: the first-seen renumbering loop with `0 ↦ 0` -/
+def relabel (labels : List Int) : List Int × Int := C03.renumber 0 labels
+
+/-- specification: 0 stays 0; a non-zero value gets 1 + the number of distinct non-zero values whose
+    first occurrence precedes its own first occurrence; count = number of distinct non-zero values -/
+def relabelSpec (labels : List Int) : List Int × Int :=
+  let firsts := (List.range labels.length).filter fun i =>
+    labels.getD i 0 ≠ 0 && labels.idxOf (labels.getD i 0) == i
+  (labels.map fun v => if v == 0 then 0 else
+      (((firsts.filter fun i => i < labels.idxOf v).length + 1 : Nat) : Int), (firsts.length : Int))
+
+/-- `is_same_labeling`: two maps seeded with `0 ↦ 0`, `insert` keeps an existing entry -/
+def sameGo (index rindex : List (Int × Int)) : List (Int × Int) → Bool
+  | [] => true
+  | (a, b) :: rest =>
+    let index' := if (index.lookup a).isSome then index else (a, b) :: index
+    let rindex' := if (rindex.lookup b).isSome then rindex else (b, a) :: rindex
+    if index'.lookup a != some b || rindex'.lookup b != some a then false
+    else sameGo index' rindex' rest
+
+def isSameLabeling (a b : List Int) : Bool := sameGo [(0, 0)] [(0, 0)] (a.zip b)
+
+/-- specification: some bijection of label values fixing 0 carries one map to the other, i.e. equal
+    labels correspond to equal labels in both directions and background corresponds to background -/
+def sameSpec (a b : List Int) : Bool :=
+  let ps := a.zip b
+  ps.all fun x => (x.1 == 0) == (x.2 == 0) && ps.all fun y => (x.1 == y.1) == (x.2 == y.2)
+
+/-- `std::binary_search(first, last, x)` = `lower_bound` then `!(x < *it)` -/
+def lowerBound (arr : Array Int) (x : Int) : Nat → Nat → Nat → Nat
+  | 0, first, _ => first
+  | fuel + 1, first, count =>
+    if count = 0 then first else
+    let step := count / 2
+    if arr.getD (first + step) 0 < x then lowerBound arr x fuel (first + step + 1) (count - (step + 1))
+    else lowerBound arr x fuel first step
+
+def binarySearch (arr : Array Int) (x : Int) : Bool :=
+  let i := lowerBound arr x (arr.size + 1) 0 arr.size
+  i < arr.size && !(x < arr.getD i 0)
+
+/-- `np.unique`: sorted, duplicates removed -/
+def sortedUnique (xs : List Int) : List Int := (xs.mergeSort (· ≤ ·)).eraseDups
+
+def removeRegions (labels regions : List Int) : List Int :=
+  let r := (sortedUnique regions).toArray
+  labels.map fun v => if v ≠ 0 && binarySearch r v then 0 else v
+
+def removeRegionsSpec (labels regions : List Int) : List Int :=
+  labels.map fun v => if regions.contains v then 0 else v
+
+/-- Python `slice(r)` and `slice(n - r, None)` on an axis of length `n` (`r ≥ 0`): is index `x` selected? -/
+def inBorderSlices (n : Nat) (r : Nat) (x : Nat) : Bool :=
+  let stop := min r n
+  let start : Nat := if r ≤ n then n - r else (2 * n - r)   -- negative start counts from the end, clipped at 0
+  x < stop || (start ≤ x && x < n)
+
+/-- `remove_bordering`: values seen in the border slabs are zeroed everywhere (`out *= (im != val)`) -/
+def removeBordering (shape : List Nat) (labels : List Int) (rsize : List Nat) : List Int :=
+  let idx := List.range labels.length
+  let invalid := (idx.filter fun i =>
+      let pos := unravel shape i
+      labels.getD i 0 ≠ 0 &&
+      (List.range shape.length).any fun d => inBorderSlices (shape.getD d 0) (rsize.getD d 0) (pos.getD d 0)).map
+        fun i => labels.getD i 0
+  labels.map fun v => if invalid.contains v then 0 else v
+
+/-- specification: a region is selected iff one of its pixels lies closer than `rsize` to a face of the image -/
+def touchesBorder (shape : List Nat) (labels : List Int) (rsize : List Nat) (v : Int) : Bool :=
+  (List.range labels.length).any fun i =>
+    labels.getD i 0 == v && (List.range shape.length).any fun d =>
+      let x := (unravel shape i).getD d 0
+      let n := shape.getD d 0
+      let r := rsize.getD d 0
+      x < r || n ≤ x + r
+
+def removeBorderingSpec (shape : List Nat) (labels : List Int) (rsize : List Nat) : List Int :=
+  labels.map fun v => if v ≠ 0 && touchesBorder shape labels rsize v then 0 else v
+
+/-- the size test of `filter_labeled` (min/max = 0 encode "not given", as the wrapper's `if min_size:` does) -/
+def badSize (minSize maxSize c : Nat) : Bool :=
+  (minSize ≠ 0 && c < minSize) || (maxSize ≠ 0 && c > maxSize)
+
+/-- `filter_labeled` -/
+def filterLabeled (shape : List Nat) (labels : List Int) (rb : Bool) (minSize maxSize : Nat) : List Int × Int :=
+  let st : List Int × Int :=
+    if rb then relabel (removeBordering shape labels (shape.map fun _ => 1)) else (labels, maxOf labels)
+  let nr := st.2.toNat
+  let sizes := histogram (nr + 1) st.1
+  let toRemove := (List.range (nr + 1)).filter fun l => l ≠ 0 && badSize minSize maxSize (sizes.getD l 0)
+  relabel (removeRegions st.1 (toRemove.map fun (l : Nat) => (l : Int)))
+
+/-- specification: the label map with exactly the selected regions zeroed (regions touching the border when
+    `rb`, regions smaller than `minSize` / larger than `maxSize` when given) -/
+def filterKept (shape : List Nat) (labels : List Int) (rb : Bool) (minSize maxSize : Nat) : List Int :=
+  labels.map fun v =>
+    if v ≠ 0 && ((rb && touchesBorder shape labels (shape.map fun _ => 1) v) ||
+        badSize minSize maxSize (labels.filter (· == v)).length) then 0 else v
+
+def filterLabeledSpec (shape : List Nat) (labels : List Int) (rb : Bool) (minSize maxSize : Nat) : List Int × Int :=
+  relabelSpec (filterKept shape labels rb minSize maxSize)
+
+/-! ### borders, border, bwperim -/
+
+/-- `borders<T>`: some neighbour the iterator retrieves (per the border mode) differs from the pixel -/
+def bordersModel (m : Mode) (shape : List Nat) (labels : List Int) (offs : List (List Int)) : List Bool :=
+  (List.range labels.length).map fun i =>
+    let cur := labels.getD i 0
+    offs.any fun k =>
+      match fixPos m shape (addPos (unravelI shape i) k) with
+      | some q => labels.getD (ravelI shape q) 0 != cur
+      | none => false
+
+/-- specification: the same with the *mathematical* border rule (`borderSpec`): with `constant`/`ignore`
+    only neighbours inside the image count -/
+def bordersSpec (m : Mode) (shape : List Nat) (labels : List Int) (offs : List (List Int)) : List Bool :=
+  (List.range labels.length).map fun i =>
+    let cur := labels.getD i 0
+    offs.any fun k =>
+      match specPos m shape (addPos (unravelI shape i) k) with
+      | some q => labels.getD (ravelI shape q) 0 != cur
+      | none => false
+
+/-- `border<T>(…, i, j)` (`ExtendConstant`): pixels of `i` with a neighbour `j` inside the image and vice versa -/
+def borderModel (shape : List Nat) (labels : List Int) (offs : List (List Int)) (li lj : Int) : List Bool :=
+  (List.range labels.length).map fun ii =>
+    let cur := labels.getD ii 0
+    if cur = li ∨ cur = lj then
+      let other := if cur = li then lj else li
+      offs.any fun k =>
+        match fixPos .constant shape (addPos (unravelI shape ii) k) with
+        | some q => labels.getD (ravelI shape q) 0 == other
+        | none => false
+    else false
+
+def borderSpec2 (shape : List Nat) (labels : List Int) (offs : List (List Int)) (li lj : Int) : List Bool :=
+  (List.range labels.length).map fun ii =>
+    let cur := labels.getD ii 0
+    offs.any fun k =>
+      let q := addPos (unravelI shape ii) k
+      inside shape q &&
+        ((cur == li && labels.getD (ravelI shape q) 0 == lj) || (cur == lj && labels.getD (ravelI shape q) 0 == li))
+
+/-- `bwperim`: `bw & borders(bw, n, mode)` -/
+def bwperim (m : Mode) (shape : List Nat) (bw : List Int) (offs : List (List Int)) : List Bool :=
+  (bw.zip (bordersModel m shape bw offs)).map fun x => x.1 ≠ 0 && x.2
+
+def bwperimSpec (m : Mode) (shape : List Nat) (bw : List Int) (offs : List (List Int)) : List Bool :=
+  (bw.zip (bordersSpec m shape bw offs)).map fun x => x.1 ≠ 0 && x.2
+
+/-! ### driver entry -/
+
+def modeOf (s : String) : Mode :=
+  match s with
+  | "nearest" => .nearest | "wrap" => .wrap | "reflect" => .reflect
+  | "mirror" => .mirror | "ignore" => .ignore | _ => .constant
+
 def handle (a : Args) : String :=
+  let shape := a.nats "shape"
+  let data := a.ints "data"
+  let labels := a.ints "labels"
   match a.str "kind" with
+  | "fold" =>
+    let n := a.nat "n"
+    let op := a.str "op"
+    let dtn := a.str "dt"
+    let cnt := (List.range n).map fun (l : Nat) => (valuesOf (data.zip labels) (l : Int)).length
+    if dtn == "f32" || dtn == "f64" then
+      let scale := Float.ofNat (a.nat "scale" 1)
+      let px := (data.map fun k => Float.ofInt k / scale).zip labels
+      let big := if dtn == "f32" then fltMax else dblMax
+      let model := match op with
+        | "sum" => sumFloat n px
+        | "max" => maxFloat (-big) n px
+        | _ => minFloat big n px
+      -- exact specification on the scaled integers
+      let ipx := data.zip labels
+      let spec := (List.range n).map fun (l : Nat) =>
+        let vs := valuesOf ipx (l : Int)
+        let v : Int := match op with
+          | "sum" => vs.foldl (· + ·) 0
+          | "max" => vs.foldl max (vs.headD 0)
+          | _ => vs.foldl min (vs.headD 0)
+        Float.ofInt v / scale
+      s!"model={showFloats model.toList} spec={showFloats spec} cnt={showNats cnt}"
+    else
+      let dt := DT.ofName dtn
+      let px := data.zip labels
+      let model := match op with
+        | "sum" => sumInt dt n px
+        | "max" => maxInt dt n px
+        | _ => minInt dt n px
+      let spec := (List.range n).map fun (l : Nat) =>
+        let vs := valuesOf px (l : Int)
+        match op with
+        | "sum" => if dt.isBool then (if vs.any (· ≠ 0) then 1 else 0) else vs.foldl (· + ·) 0
+        | "max" => vs.foldl max (vs.headD 0)
+        | _ => vs.foldl min (vs.headD 0)
+      s!"model={showInts model.toList} spec={showInts spec} cnt={showNats cnt}"
+  | "hist" =>
+    let h := fullHistogram (a.str "dt" == "b1") data
+    s!"model={showNats h} spec={showNats (countSpec data h.length)}"
+  | "bbox" =>
+    let fast := match shape with
+      | [n0, n1] => bboxFast n0 n1 data
+      | _ => bboxGeneric shape data
+    let spec := match bboxSpec shape data with
+      | some b => showInts b
+      | none => "none"
+    s!"generic={showInts (bboxGeneric shape data)} fast={showInts fast} spec={spec}"
+  | "bboxl" =>
+    let n := (maxOf labels).toNat
+    s!"model={showInts (bboxLabeled shape labels n)} spec={showInts (bboxLabeledSpec shape labels n)}"
+  | "com" =>
+    let scale := Float.ofNat (a.nat "scale" 1)
+    let vals := data.map fun k => Float.ofInt k / scale
+    let model := comModel shape vals labels
+    let sp := comSpec shape data labels
+    let spec := sp.map fun nd => Float.ofInt nd.1 / Float.ofInt nd.2
+    let ok := sp.map fun nd => nd.2 != 0
+    s!"model={showFloats model} spec={showFloats spec} ok={showBools ok}"
+  | "relabel" =>
+    let m := relabel labels
+    let s := relabelSpec labels
+    s!"model={showInts m.1} nmodel={m.2} spec={showInts s.1} nspec={s.2}"
+  | "same" =>
+    let b := a.ints "labels2"
+    s!"model={showBools [isSameLabeling labels b]} spec={showBools [sameSpec labels b]}"
+  | "remove" =>
+    let r := a.ints "regions"
+    s!"model={showInts (removeRegions labels r)} spec={showInts (removeRegionsSpec labels r)}"
+  | "rmborder" =>
+    let r := a.nats "rsize"
+    s!"model={showInts (removeBordering shape labels r)} spec={showInts (removeBorderingSpec shape labels r)}"
+  | "filter" =>
+    let rb := a.nat "rb" != 0
+    let m := filterLabeled shape labels rb (a.nat "min") (a.nat "max")
+    let s := filterLabeledSpec shape labels rb (a.nat "min") (a.nat "max")
+    s!"model={showInts m.1} nmodel={m.2} spec={showInts s.1} nspec={s.2}"
+  | "borders" =>
+    let offs := C03.offsets (a.nats "bshape") (a.ints "bc").toArray
+    let m := modeOf (a.str "mode")
+    s!"model={showBools (bordersModel m shape labels offs)} spec={showBools (bordersSpec m shape labels offs)}"
+  | "border" =>
+    let offs := C03.offsets (a.nats "bshape") (a.ints "bc").toArray
+    let m := borderModel shape labels offs (a.int "i") (a.int "j")
+    let s := borderSpec2 shape labels offs (a.int "i") (a.int "j")
+    s!"model={showBools m} spec={showBools s}"
+  | "bwperim" =>
+    let offs := C03.offsets (a.nats "bshape") (a.ints "bc").toArray
+    let m := modeOf (a.str "mode")
+    s!"model={showBools (bwperim m shape labels offs)} spec={showBools (bwperimSpec m shape labels offs)}"
   | k => s!"error=unknown-kind-{k}"
 
 end Mahotas.C13
